@@ -16,9 +16,11 @@ PROPS["C02"] = dict(
                            + [d for sub in (15, 10, 12) for d in _with(op_shards([B_TET2_FACE], [0, 3], _DELS), {7: sub})]},
          bounds="same with subsets of the bottom-up incidences disabled (before or after the base is built): the non-cached code paths of delete_*_core"),
     dict(name="c02-k2", **_c02_common,
-         shards={"quick": [s for op1 in _DELS for s in op2_shards([B_TET], [1, 3], op1, OP_GC, 0)] + [s for op1 in (OP_DEL_V, OP_DEL_E) for s in op2_shards([B_LOWDIM], [1, 3], op1, OP_GC, 0)]
+         # C02 harness layout: the CHECKED operation is param 2 (selector over its arguments), the pre-operation is params 4/5 (fixed argument)
+         shards={"quick": [d for (pre, idxs) in ((OP_DEL_V, (0, 3)), (OP_DEL_E, (1, 4)), (OP_DEL_F, (2,)), (OP_DEL_C, (0,))) for i in idxs for d in _with(op_shards([B_TET], [1, 3], [OP_GC]), {4: pre, 5: i})]
+                        + [d for (pre, idxs) in ((OP_DEL_V, (2, 4)), (OP_DEL_E, (3, 4)), (OP_DEL_F, (0,))) for i in idxs for d in _with(op_shards([B_LOWDIM], [1, 3], [OP_GC]), {4: pre, 5: i})]
                         + _with(op_shards([B_TET], [1, 3], [OP_SET_MODE]), {4: OP_DEL_E, 5: 2}) + _with(op_shards([B_TET], [1], _DELS), {4: OP_DEL_F, 5: 1}),
-                 "thorough": [s for op1 in _DELS for s in op2_shards([B_TET2_FACE, B_LOWDIM], [1, 3], op1, OP_GC, 0)]
+                 "thorough": [d for b in (B_TET, B_LOWDIM, B_TET2_FACE) for (pre, n) in zip(_DELS, BASE_COUNTS[b]) for i in range(n) for d in _with(op_shards([b], [1, 3], [OP_GC]), {4: pre, 5: i})]
                         + [d for pre_idx in (0, 3) for pre in _DELS for d in _with(op_shards([B_TET], [0, 1, 3], _DELS), {4: pre, 5: pre_idx})]
                         + [d for pre_idx in (0, 1, 2, 3) for d in _with(op_shards([B_TET], [0, 1], _DELS), {4: OP_SET_MODE, 5: pre_idx})]
                         + _with(op_shards([B_TET], [0, 1, 3], _DELS), {4: OP_ADD_E_DUP, 5: 1}) + _with(op_shards([B_TET], [0, 1, 3], _DELS), {4: OP_ADD_V, 5: 0})},
